@@ -794,22 +794,42 @@ fn shake_1(expression: Expression) -> Expression {
                         };
                     } else {
                         let (context, needles): (Vec<_>, Vec<_>) = searches.into_iter().unzip();
-                        let expression = Expression::Search(
-                            Search::AhoCorasick(
-                                Box::new(
-                                    AhoCorasickBuilder::new()
-                                        .ascii_case_insensitive(insensitive)
-                                        .kind(Some(AhoCorasickKind::DFA))
-                                        .build(needles)
-                                        .expect("failed to build dfa"),
-                                ),
-                                context,
-                                insensitive,
-                            ),
-                            field,
-                            cast,
-                        );
-                        aho.push(expression);
+                        // NOTE: The merged automaton can exceed the state limit although every
+                        // member was built on its own, in which case the members stay separate
+                        // searches
+                        match AhoCorasickBuilder::new()
+                            .ascii_case_insensitive(insensitive)
+                            .kind(Some(AhoCorasickKind::DFA))
+                            .build(&needles)
+                        {
+                            Ok(automaton) => aho.push(Expression::Search(
+                                Search::AhoCorasick(Box::new(automaton), context, insensitive),
+                                field,
+                                cast,
+                            )),
+                            Err(_) => {
+                                for (context, needle) in context.into_iter().zip(needles) {
+                                    let search = match context {
+                                        _ if insensitive => Search::AhoCorasick(
+                                            Box::new(
+                                                AhoCorasickBuilder::new()
+                                                    .ascii_case_insensitive(true)
+                                                    .kind(Some(AhoCorasickKind::DFA))
+                                                    .build(vec![needle])
+                                                    .expect("failed to build dfa"),
+                                            ),
+                                            vec![context],
+                                            true,
+                                        ),
+                                        MatchType::Contains(v) => Search::Contains(v),
+                                        MatchType::EndsWith(v) => Search::EndsWith(v),
+                                        MatchType::Exact(v) => Search::Exact(v),
+                                        MatchType::StartsWith(v) => Search::StartsWith(v),
+                                    };
+                                    aho.push(Expression::Search(search, field.clone(), cast));
+                                }
+                            }
+                        }
                     };
                 }
 
